@@ -42,6 +42,10 @@ TRUSTED_BASE = [
     "harness/extract_srcchan.py (grpc/util/async_channel.py: every method of AsyncChannel as a resumption program, try/finally on every exit path -> Gen/SrcChan.lean) and lean/BpProofs/PyPreludeChan.lean (the command tree, max / range / qsize / `is self.__flush`); the asyncio Queue / Task model of BpModel/Chan.lean stays hand-modelled (CPython is an external), and the task programs of the C12 model are tied to harness/chanloop.py by the lock-step correspondence only",
     "harness/extract_srcparser.py (plugin/parser.py: traverse / _traverse, the dispatch of read_protobuf_type and read_protobuf_service, the package / file loops of generate_code -> Gen/SrcParser.lean) and lean/BpProofs/PyPreludeParser.lean (descriptor objects as plain values, a generator as the list of what it yields, constructing a compiler object = one registration with its output template, dicts as insertion-ordered association lists, pathlib.Path as a list of parts with exists() as a parameter); validated by harness/tests/check_srcparser.py against the real plugin",
     "harness/extract_srcgrpc.py (grpc/grpclib_client.py: __resolve_request_kwargs, the four call helpers, _send_messages; grpc/grpclib_server.py: _call_rpc_handler_server_stream; the __rpc_* adapters, stub methods, __mapping__ and default bodies as RENDERED by the template for the four cardinalities under the six option sets -> Gen/SrcGrpc.lean) and lean/BpProofs/PyPreludeGrpc.lean; BpModel/GrpcCall.lean models grpclib 0.4.9's client Stream flags / ProtocolError checks and FIFO delivery as the external (validated by the GCALL correspondence against real calls through grpclib's test channel)",
+    "harness/extract_srcmeta.py (ProtoClassMetadata.__init__ / _get_default_gen / _get_cls_by_field, Message._betterproto, __post_init__, __setattr__ whole, _type_hint, _cls_for, _get_field_default_gen, _get_field_default, dataclass_field and the *_field helpers -> Gen/SrcMeta.lean) and lean/BpProofs/PyPreludeMeta.lean (a class as its field list, dicts as association lists, the ASSUMED map typeHint : FieldD -> Hint from a field to the hint typing.get_type_hints gives, CPython's generated dataclass __init__ as dataclassInit); validated by harness/tests/check_srcmeta.py",
+    "harness/extract_srcpydict.py (Message.to_pydict / from_pydict loop bodies and loops, to_json / from_json -> Gen/SrcPyDict.lean) and lean/BpProofs/PyPreludePyDict.lean (on top of the JSON preludes; json.dumps . json.loads = the model's jsonText)",
+    "harness/extract_srcleaf.py (_parse_float, _dump_enum, _parse_enum, _Duration.delta_from_json, _Timestamp.timestamp_to_json whole -> Gen/SrcLeaf.lean) and lean/BpProofs/PyPreludeLeaf.lean (f-string rendering of ints, Decimal(text) on plain decimal literals, Decimal * int exact up to 28 digits, int() truncation, datetime as wall-clock microseconds plus utcoffset, isoformat of whole seconds abstract); validated by harness/tests/check_srcleaf.py",
+    "harness/extract_srctemplate.py (templates/header.py.j2 and template.py.j2 parsed with Jinja2's own parser under compiler.py's Environment options -> Gen/SrcTemplate.lean), lean/BpProofs/PyPreludeTemplate.lean (for / loop.last, if, set, |sort = stable case-insensitive sort that removes nothing, join) and Jinja2's lexer / parser; validated against real renderings by harness/tests/check_srctemplate.py",
     "that each Lean statement in lean/BpProofs/Props says what the English property says",
 ]
 
